@@ -214,6 +214,7 @@ func execOne(o Op, ptrees *[]*ad.AvlTree, piters *[]*ad.AvlIterator) Out {
 		}
 		r.H = treeHash(trees[o.T])
 	case "Del":
+		noteDelete(trees[o.T], int(o.I))
 		if x := idxOf[trees[o.T]]; x != nil {
 			before := countNodes(trees[o.T].Root)
 			x.Delete(int(o.I))
@@ -375,6 +376,8 @@ func genKey(r *Rng, univ int) int64 {
 		return int64(r.Intn(48))
 	case 2:
 		return int64(r.Intn(200)) - 100
+	case 4:
+		return genDirKey(r)
 	default:
 		ext := []int64{math.MaxInt64, math.MaxInt64 - 1, math.MaxInt64 - 2, math.MinInt64, math.MinInt64 + 1, 0, -1, 1, math.MaxInt64 - 3, math.MinInt64 + 2}
 		return ext[r.Intn(len(ext))]
@@ -397,11 +400,32 @@ func genCase(r *Rng, w *CaseWriter) (Case, stats) {
 	if univ >= 1 {
 		pre = r.Range(8, 40)
 	}
+	// round 7: directed families (harness/c19/directed.go): 0 = a deletion reaching a double
+	// rotation with a balanced two-child pivot, 1 = SafeIteratorFrom + mutation of the source
+	// during the iteration, >= 2 = purely random
+	family := r.Intn(5)
+	dirKeys = dirKeys[:0]
+	burstAt := -1
+	if family == 0 {
+		univ, pre = 4, 0
+		var dops []Op
+		dops, niters = directedDelete(r, w)
+		ops = append(ops, dops...)
+	} else if family == 1 {
+		burstAt = r.Intn(n/2 + 1)
+		w.Count("directed:safe-from-burst")
+	}
 	for k := 0; k < pre; k++ {
 		ops = append(ops, Op{"Ins", 0, genKey(r, univ)})
 	}
 	liveIter := false
 	for k := 0; k < n; k++ {
+		if (k == burstAt || (family == 0 && k > 0 && k%40 == 0)) && ntrees < 4 && niters < 6 {
+			ops = append(ops, safeFromBurst(r, 0, niters, func() int64 { return genKey(r, univ) })...)
+			ntrees++
+			niters++
+			continue
+		}
 		t := r.Intn(ntrees)
 		if r.Intn(4) > 0 {
 			t = 0
@@ -469,7 +493,17 @@ func genCase(r *Rng, w *CaseWriter) (Case, stats) {
 		ops = append(ops, Op{"Elems", t, 0})
 	}
 	viaIndex = r.Intn(3) == 0
+	dblPivotHits, sglBalancedHits = 0, 0
 	outs := execute(ops)
+	if sglBalancedHits > 0 {
+		w.Count("del:single-rotation-with-balanced-child(histories)")
+	}
+	if dblPivotHits > 0 {
+		w.Count("del:double-rotation-with-balanced-two-child-pivot(histories)")
+	}
+	for j := 0; j < dblPivotHits; j++ {
+		w.Count("del:double-rotation-with-balanced-two-child-pivot(deletions)")
+	}
 	// statistics for the non-triviality rule
 	var st stats
 	seenIter := false
@@ -523,7 +557,7 @@ func main() {
 	}
 	w := NewCaseWriter(o.Out, "cases", hdr, "pmism", 25)
 	w.Type = "pcase"
-	w.Rule = "every step is compared on flag, value, tree checksum, key list AND on the checksum of the whole heap (node identities in allocation order, Left/Right/Parent pointers, Deleted flags, unlinked objects, the node pointer of every iterator); random histories of Insert/Delete/Find/FindLE/Clone/Iterator/IteratorFrom/SafeIterator/SafeIteratorFrom (one call = the two model steps Clone; Iterator[From] on the hidden clone, whose objects are part of the heap checksum)/iterator Clone/Next over 1-4 trees, one third of the histories run through the index wrappers of vector_sparse_index.go (hook verif_c19h.go), every tree checksum read through Emtpy/Value/Left/Right and up to 7 live iterators; key universes {0..7, 0..47, -100..99, int64 extremes}; a case is non-trivial iff its largest tree held >= 12 keys and at least 3 successful Insert/Delete happened while an iterator was live; distinct = distinct op list"
+	w.Rule = "every step is compared on flag, value, tree checksum, key list AND on the checksum of the whole heap (node identities in allocation order, Left/Right/Parent pointers, Deleted flags, unlinked objects, the node pointer of every iterator); random histories of Insert/Delete/Find/FindLE/Clone/Iterator/IteratorFrom/SafeIterator/SafeIteratorFrom (one call = the two model steps Clone; Iterator[From] on the hidden clone, whose objects are part of the heap checksum)/iterator Clone/Next over 1-4 trees, one third of the histories run through the index wrappers of vector_sparse_index.go (hook verif_c19h.go), every tree checksum read through Emtpy/Value/Left/Right and up to 7 live iterators; key universes {0..7, 0..47, -100..99, int64 extremes, the keys of a directed template +-1}; one fifth of the histories start from a rotation-free AVL shape followed by ONE deletion that reaches rotateLR/rotateRL from balance2/balance1 with a balanced two-child pivot (directed.go; counted on the real tree by a read-only detector), one fifth contain SafeIteratorFrom(lo) + inserts/deletes on the source at lo..lo+8 interleaved with Next on the safe iterator; a case is non-trivial iff its largest tree held >= 12 keys and at least 3 successful Insert/Delete happened while an iterator was live; distinct = distinct op list"
 	// committed corpus first
 	corpus, _ := os.ReadFile(o.Extra)
 	if len(corpus) > 0 {
